@@ -275,14 +275,21 @@ def gen_load(rng, profile, s0, force=None, omega=None):
 
 
 # ---- one-port trees --------------------------------------------------------------------
-def gen_tree(rng, profile, depth=0):
+AC_PHASES = {'0': (1, 0), 'pi/2': (0, 1), '-pi/2': (0, -1), 'pi': (-1, 0)}     # quarter turns: every phasor is a Gaussian rational
+
+
+def gen_tree(rng, profile, depth=0, omega=None):
     if depth >= 3 or (depth > 0 and rng.random() < 0.45):
         r = rng.random()
         if profile == 'dc':
             ks = ['R', 'R', 'R', 'V', 'I']
+        elif profile == 'ac':
+            ks = ['R', 'R', 'C', 'L', 'C', 'L', 'V', 'I']
         else:
             ks = ['R', 'R', 'R', 'C', 'L', 'V', 'I']
         k = rng.choice(ks)
+        if profile == 'ac' and k in ('V', 'I'):
+            return [k, 'ac', str(netgen.val(rng, -5, 5) or Fraction(3)), rng.choice(['0', 'pi/2', '-pi/2', 'pi', 'pi/2', '-pi/2']), str(omega)]
         if k == 'R':
             return ['R', str(netgen.val(rng))]
         if k in ('C', 'L'):
@@ -292,7 +299,7 @@ def gen_tree(rng, profile, depth=0):
             return [k, str(netgen.val(rng)), ic]
         return [k, 'dc' if profile == 'dc' else 'step', str(netgen.val(rng, -5, 5) or Fraction(3))]
     n = rng.randint(2, 3)
-    return [rng.choice(['ser', 'par']), [gen_tree(rng, profile, depth + 1) for _ in range(n)]]
+    return [rng.choice(['ser', 'par']), [gen_tree(rng, profile, depth + 1, omega) for _ in range(n)]]
 
 
 def tree_valid(t, top=True):
@@ -318,6 +325,8 @@ def tree_lines(t, a, b, cnt, out):
         out.append('%s %s %s %s' % (nm('R'), a, b, f(Fraction(t[1]))))
     elif k in ('C', 'L'):
         out.append('%s %s %s %s%s' % (nm(k), a, b, f(Fraction(t[1])), '' if t[2] is None else ' ' + f(Fraction(t[2]))))
+    elif k in ('V', 'I') and t[1] == 'ac':
+        out.append('%s %s %s ac %s {%s} %s' % (nm(k), a, b, f(Fraction(t[2])), t[3], f(Fraction(t[4]))))
     elif k in ('V', 'I'):
         out.append('%s %s %s %s %s' % (nm(k), a, b, t[1], f(Fraction(t[2]))))
     elif k == 'ser':
@@ -348,17 +357,27 @@ def leaf_line(t, s, dc):
         lv = Fraction(t[1])
         i0 = Fraction(t[2]) if t[2] is not None else Fraction(0)
         return (Fraction(1), s * lv, -lv * i0)
-    v = Fraction(t[2]) if dc else Fraction(t[2]) / s
+    if t[1] == 'ac':
+        re_, im_ = AC_PHASES[t[3]]
+        v = G(Fraction(t[2]) * re_, Fraction(t[2]) * im_)       # phasor A exp(j phi)
+    else:
+        v = Fraction(t[2]) if dc else Fraction(t[2]) / s
     if k == 'V':
         return (Fraction(1), Fraction(0), v)
     return (Fraction(0), Fraction(1), v)
 
 
-def tree_coq(t, s, dc):
+def tree_coq(t, s, dc, fld='QcF'):
     if t[0] in ('ser', 'par'):
-        return '(%s [%s])' % ('Ser' if t[0] == 'ser' else 'Par', '; '.join(tree_coq(c, s, dc) for c in t[1]))
+        return '(%s [%s])' % ('Ser' if t[0] == 'ser' else 'Par', '; '.join(tree_coq(c, s, dc, fld) for c in t[1]))
     a, b, c = leaf_line(t, s, dc)
-    return '(Leaf (K:=QcF) %s %s %s)' % (q(a), q(b), q(c))
+    return '(Leaf (K:=%s) %s %s %s)' % (fld, q(a, fld), q(b, fld), q(c, fld))
+
+
+def tree_count(t, kinds):
+    if t[0] in ('ser', 'par'):
+        return sum(tree_count(c, kinds) for c in t[1])
+    return 1 if t[0] in kinds else 0
 
 
 def tree_has_src(t):
@@ -515,6 +534,46 @@ CORPUS_TREES = [
 ]
 
 
+# ac one-ports (a single angular frequency, at least one reactive element): OnePort.thevenin()/norton() take the immittance at s = j omega
+CORPUS_AC_TREES = [
+    (['par', [['ser', [['V', 'ac', '1', '0', '3'], ['C', '2', None]]], ['R', '3']]], '3'),
+    (['ser', [['par', [['I', 'ac', '2', 'pi/2', '3/2'], ['L', '2', None]]], ['R', '1']]], '3/2'),
+    (['par', [['ser', [['V', 'ac', '-3', '-pi/2', '2'], ['L', '1/2', None], ['R', '2']]], ['ser', [['C', '1/3', None], ['R', '1']]]]], '2'),
+    (['ser', [['par', [['I', 'ac', '5/2', 'pi', '1/2'], ['C', '3', None], ['R', '2']]], ['L', '3/2', None]]], '1/2'),
+]
+
+
+def ac_tree_case(rng, t, om, tags):
+    lines = []
+    tree_lines(t, '1', '0', {}, lines)
+    ld = gen_load(rng, 'ac', '1', omega=om)
+    return {'mode': 'oneport', 'tree': t, 'netlist': lines, 'profile': 'ac', 'omega': str(om), 's0': '1', 'tags': tags,
+            'load': ld['lines'], 'load_cur': ld['cur'], 'loadline': {'kind': ld['kind'], 'E': ld['E'], 'Zl': ld['Zl']}}
+
+
+def gen_ac_trees(tier):
+    """own random stream: the cases of the other families stay what they were for a given VERIF_SEED"""
+    rng = random.Random(core.seed() * 7919 + 404)
+    n_ac = int(os.environ.get('VERIF_NACTREES', 14 if tier == 'quick' else 120))
+    out = [ac_tree_case(rng, t, om, ['oneport', 'ac', 'corpus']) for t, om in CORPUS_AC_TREES]
+    k = tries = 0
+    while k < n_ac and tries < 60 * n_ac:
+        tries += 1
+        om = Fraction(rng.randint(1, 7), rng.choice([1, 1, 2, 3]))
+        t = gen_tree(rng, 'ac', omega=om)
+        if t[0] not in ('ser', 'par') or not tree_valid(t):
+            continue
+        nsrc, nreact = tree_count(t, ('V', 'I')), tree_count(t, ('C', 'L'))
+        if not (1 <= nsrc <= 2 and 1 <= nreact <= 3):
+            continue
+        # both source kinds: alternate which one the (first) source is
+        if nsrc == 1 and tree_count(t, ('V',)) != (k % 2):
+            continue
+        out.append(ac_tree_case(rng, t, om, ['oneport', 'ac']))
+        k += 1
+    return out
+
+
 def gen_cases(rng, tier):
     n_net = int(os.environ.get('VERIF_NCASES', 72 if tier == 'quick' else 800))
     n_tree = int(os.environ.get('VERIF_NTREES', 28 if tier == 'quick' else 300))
@@ -583,6 +642,7 @@ def gen_cases(rng, tier):
         cases.append({'mode': 'oneport', 'tree': t, 'netlist': lines, 'profile': prof, 's0': s0, 'tags': ['oneport', prof],
                       'load': ld['lines'], 'load_cur': ld['cur'], 'loadline': {'kind': ld['kind'], 'E': ld['E'], 'Zl': ld['Zl']}})
         k += 1
+    cases += gen_ac_trees(tier)
     return cases
 
 
@@ -860,22 +920,37 @@ def build_tree_items(ci, case, wr, res):
     api = wr['api']
     s0 = Fraction(case['s0'])
     dc = case['profile'] == 'dc'
+    ac = case['profile'] == 'ac'
     scale = s0 if dc else Fraction(1)
     t = case['tree']
     name = 'tr_%d' % ci
-    defn = 'Definition %s : tree QcF := %s.' % (name, tree_coq(t, s0, dc))
+    if ac:
+        # phasors over the Gaussian rationals; every reactive leaf is taken at s = j omega INSIDE the model tree, so the
+        # model's th / no are the Thevenin / Norton pair at the source frequency whatever point the code evaluates at
+        s0 = G(0, Fraction(case['omega']))
+        fld, pfx = 'QcIF', 'g_%s QcIF'
+    else:
+        fld, pfx = 'QcF', 'c_%s'
+    defn = 'Definition %s : tree %s := %s.' % (name, fld, tree_coq(t, s0, dc, fld))
     th, no = tree_eval(t, s0, dc)
     info = {'th': th, 'no': no, 'has_ic': tree_has_ic(t)}
     if info['has_ic']:
         info['ic_variants'] = tree_ic_variants(t)
-    if not dc:
+    if not dc and not ac:
         info['dth'], info['dno'] = tree_eval(t, s0, True, ext=True)     # C open, L short: the s -> 0 model
+    if ac and th is not None:
+        info['model'] = {'Voc': th[0], 'Z': th[1]}      # (validated in Coq by the shape / value items below) for the exact load-line oracle
     # the harness evaluation of the tree is only used to decide WHICH comparisons make sense; the verdict is Coq's
+    hs = ('g_has_%s QcIF' if ac else 'has_%s')
     items.append(dict(label='%d/shape' % ci, probe='shape', role='main', defn=defn,
-                      expr='Bool.eqb (has_th %s) %s && Bool.eqb (has_no %s) %s' % (name, 'true' if th else 'false', name, 'true' if no else 'false')))
+                      expr='Bool.eqb (%s %s) %s && Bool.eqb (%s %s) %s' % (hs % 'th', name, 'true' if th else 'false', hs % 'no', name, 'true' if no else 'false')))
+    if ac and th is not None:
+        # the harness-side pair used by the exact load-line oracle is the model's
+        items.append(dict(label='%d/model_pair' % ci, probe='model_pair', role='main', defn=defn,
+                          expr='g_th_fst QcIF %s %s && g_th_snd QcIF %s %s' % (name, q(th[0], fld), name, q(th[1], fld))))
 
     def add(probe, fn, v):
-        items.append(dict(label='%d/%s' % (ci, probe), probe=probe, role='main', defn=defn, expr='%s %s %s' % (fn, name, q(v))))
+        items.append(dict(label='%d/%s' % (ci, probe), probe=probe, role='main', defn=defn, expr='%s %s %s' % (pfx % fn[2:], name, q(v, fld))))
     if th is not None:
         for nm, fn, sc in (('Voc', 'c_th_fst', scale), ('thVoc', 'c_th_fst', scale), ('Z', 'c_th_snd', 1), ('thZ', 'c_th_snd', 1)):
             v = fr(api.get(nm))
